@@ -126,6 +126,12 @@ func C10(c *Ctx) {
 	c.Level = "model_checking"
 	c.Explanation = "C10: the real Lex (coroutine) + Parse + RootVistor.Process run in the engine on renderings of corpus specifications: the canonical text, and texts with m unconstrained whitespace bytes, a /* */ or // comment with m unconstrained ASCII body bytes, or an optional ';' inserted at a lexical gap. What yaccgo will work on (rules in order with symbols, %prec, action text; start symbol; token numbers, tags, kinds; precedence levels; prologue, %union body, epilogue) is compared with tables generated from the specification."
 	specs := c10Corpus(c)
+	nGap := len(specs) // only these get layout inserted at every gap
+	nRich := 12
+	if c.Thorough() {
+		nRich = 60
+	}
+	specs = append(specs, corpus.RandomRich(c.Seed, nRich)...)
 	data, pieces := layoutData(specs)
 	eng, err := LoadRepoExtra(map[string]string{"Parser/zz_verif_layout_data.go": data}, "Parser")
 	if err != nil {
@@ -137,7 +143,7 @@ func C10(c *Ctx) {
 	if c.Thorough() {
 		mWS, mC = 3, 3
 	}
-	c.Bound("%d specifications; at every lexical gap of the canonical rendering (one gap at a time): all strings of <= %d bytes over {space, tab, newline}; a block or line comment with every ASCII body of <= %d bytes; every subset of optional ';' terminators", len(specs), mWS, mC)
+	c.Bound("%d specifications (+ %d random declaration mixes read in canonical rendering and with every subset of optional ';'); at every lexical gap of the canonical rendering (one gap at a time): all strings of <= %d bytes over {space, tab, newline}; a block or line comment with every ASCII body of <= %d bytes; every subset of optional ';' terminators", nGap, nRich, mWS, mC)
 	c.Outside = append(c.Outside, "layout inserted at two gaps at once", "non-ASCII bytes and \\r", "layout inside prologue/action/union bodies (they are content)", "files without the second %%", "the textual shape of the epilogue after the second %% (carried verbatim)")
 	replay := ReplaySpec{Kind: "repo", PkgDirs: []string{"Parser"}, Extra: map[string]string{"Parser/zz_verif_layout_data.go": data}}
 	var wg sync.WaitGroup
@@ -154,6 +160,10 @@ func C10(c *Ctx) {
 	for id, s := range specs {
 		run(SymJob{Name: "canonical " + s.Name, Eng: eng, PkgPath: RepoModule + "/Parser", Entry: "VerifCanonical", Args: []int{id}, Replay: replay, Need: []string{"read"}})
 		run(SymJob{Name: "semicolons " + s.Name, Eng: eng, PkgPath: RepoModule + "/Parser", Entry: "VerifSemicolons", Args: []int{id}, Replay: replay})
+		if id >= nGap {
+			c.MarkDistinct(s.Name)
+			continue // random declaration mixes: canonical rendering and ';' subsets only
+		}
 		nh := len(pieces[id]) - 2 // not after the second %% (that text belongs to the epilogue)
 		for h := 0; h < nh; h++ {
 			for m := 1; m <= mWS; m++ {
